@@ -90,12 +90,14 @@ Bump(st, key) == [st EXCEPT !.cnt = Upd(@, key, (IF Has(@, key) THEN @[key] ELSE
 CastStr(v) == CASE v.k = "nil" -> "nil" [] v.k = "lit" -> v.v [] OTHER -> "?"
 Castable(v) == v.k \in {"nil", "lit"}
 
+TagPrio(cfg, s, t) ==
+  LET tg == Eff(cfg.services[s]).tags
+      i == CHOOSE j \in 1..Len(tg) : tg[j].n = t /\ \A j2 \in 1..Len(tg) : tg[j2].n = t => j2 <= j
+  IN tg[i].prio                      \* the last entry wins (map assignment in the runtime)
 TaggedOrder(cfg, t) ==
   LET S == {s \in SvcNames(cfg) : t \in SvcTags(cfg.services[s])}
-      Prio(s) == LET tg == Eff(cfg.services[s]).tags
-                     i == CHOOSE j \in 1..Len(tg) : tg[j].n = t /\ \A j2 \in 1..Len(tg) : tg[j2].n = t => j2 <= j
-                 IN tg[i].prio                      \* the last entry wins (map assignment in the runtime)
-  IN SortSeq(SetToSeq(S), LAMBDA a, b : Prio(a) > Prio(b) \/ (Prio(a) = Prio(b) /\ NameLt(a, b)))
+  IN SortSeq(SetToSeq(S), LAMBDA a, b : TagPrio(cfg, a, t) > TagPrio(cfg, b, t)
+                                         \/ (TagPrio(cfg, a, t) = TagPrio(cfg, b, t) /\ NameLt(a, b)))
 
 RECURSIVE GetSvc(_, _), ResolveArg(_, _), ResolveArgs(_, _, _, _), GetTaggedFrom(_, _, _, _),
           GetParamV(_, _), EvalChunks(_, _, _, _), SetFields(_, _, _, _, _), RunCalls(_, _, _, _, _),
